@@ -51,6 +51,10 @@ CHECKS["C06"] = ("§5 C06", "33 kinds of awkward values (no __dict__, non-str ke
     "BaseException subclasses, invalid UTF-8 text) at 5 positions (local, list element, dict value, attribute, watch-only), 1-3 snapshot tracepoints on the line, through the "
     "real handler/collector and the real protobuf conversion: one converting snapshot per tracepoint, every other variable intact (independent reader), the value has an entry "
     "with its real type name, tables closed with no foreign entries. Selector space enumerated by the solver.")
+CHECKS["C02"] = ("§5 C02", "Snapshots produced by the real handler/collector for stacks of 1-3 frames (files inside/outside app root, include and exclude prefixes; "
+    "self absent/instance/None), top-frame locals from graph templates (nested, shared, cyclic, objects with private attributes, exceptions), 5 frame_type settings, "
+    "0-2 watches, line and method tracepoints, compared field by field with an independent reader of the same objects (type names, text, children, de-mangled names, "
+    "identity), plus tracepoint identity/arguments, timestamp and resource. Selector space enumerated by the solver.")
 PENDING = {}
 
 def main():
